@@ -123,6 +123,8 @@ var _ *pb.SharedGroupProposal
 //@ requires [wf] wfGroup(this) && this.transport.clusterConn != nil && book(this) != nil && this.transport.clusterConn.conns != nil
 //@ requires [conns] forall j uint64 :: has(this.transport.clusterConn.conns, j) ==> this.transport.clusterConn.conns[j] != nil
 //@ ensures [C05 confchange-applied] applied == 1 || (!isnil(ret) && applied == 0)
+//@ ensures [C20 join-lists-announced-address] this.id == uuid.Nil && applied == 1 && cc.Type == 0 ==> has(book(this), cc.NodeID) && book(this)[cc.NodeID] == string(cc.Context)
+//@ ensures [C20 leave-unlists] this.id == uuid.Nil && applied == 1 && cc.Type == 1 ==> !has(book(this), cc.NodeID)
 //@ ensures [C20 other-groups-untouched] this.id != uuid.Nil ==> forall j uint64 :: has(book(this), j) == old(has(book(this), j)) && book(this)[j] == old(book(this)[j])
 //@ ensures [wf] wfGroup(this)
 //@ modifies this.raftConfState, map(book(this)), map(this.transport.clusterConn.conns)
@@ -358,3 +360,37 @@ var _ *pb.SharedGroupProposal
 //@ requires [wf] this.proxies != nil
 //@ requires [C14 consumers-registered] forall n string :: has(snapshotProxyNames(data), n) ==> has(this.proxies, n) && this.proxies[n] != nil && this.proxies[n].processSnapshotFn != nil
 //@ modifies *
+
+// ---------------------------------------------------------------------------------------------
+// C20: membership. A join is proposed as an AddNode configuration change that carries the announced address; when the zero
+// group applies it, the address book lists the node under exactly that address.
+
+//@ func (*storage/raft.RaftGroup).ProposeJoin
+//@ props C20
+//@ safety C12
+//@ at call Node.ProposeConfChange
+//@ requires [C20 join-carries-address] $arg2.Type == 0 && $arg2.NodeID == nodeId && string($arg2.Context) == address
+//@ end
+//@ requires [wf] !isnil(this.raft)
+//@ modifies nothing
+
+//@ func (*storage/raft.RaftGroup).ProposeLeave
+//@ props C20
+//@ safety C12
+//@ at call Node.ProposeConfChange
+//@ requires [C20 leave-names-node] $arg2.Type == 1 && $arg2.NodeID == nodeId
+//@ end
+//@ requires [wf] !isnil(this.raft)
+//@ modifies nothing
+
+// the snapshot of the zero group is what a restarted or lagging member restores from: it has to cover the address book
+//@ func (*storage/raft.sharedGroup).snapshot
+//@ props C20 C14
+//@ safety C12
+//@ ghost readBook int = 0
+//@ at call Conn).Nodes
+//@ set readBook = 1
+//@ end
+//@ requires [wf] this.proxies != nil && forall n string :: has(this.proxies, n) ==> this.proxies[n] != nil
+//@ ensures [C20 captures-book] isnil(ret1) ==> readBook == 1
+//@ modifies nothing
